@@ -60,6 +60,8 @@ func (e *env) install() {
 	// tests of go-zero run with the reporter switched off; do the same (public API).
 	stat.SetReporter(nil)
 	stat.VerifSetCpuUsage(0)
+	// load.Disable() is process-global and has no public inverse: every run starts enabled
+	load.VerifC02SetEnabled(true)
 	load.VerifSetOverloadChecker(func(thr int64) bool {
 		over := e.cpu >= thr
 		c := e.cur[e.r.CurrentID()]
@@ -69,7 +71,9 @@ func (e *env) install() {
 		}
 		c.checks++
 		c.thrSeen = thr
-		if over {
+		// the oracle's notion of "overloaded during this Allow" uses the threshold this
+		// shedder was configured with, not the one the implementation passes in
+		if e.cpu >= c.w.cfg.thr {
 			c.over = true
 		}
 		return over
@@ -110,6 +114,9 @@ func (c config) interval() time.Duration { return c.window / time.Duration(c.buc
 
 type world struct {
 	e        *env
+	pfx      string   // prefix of the violation classes (scenario family)
+	desc     string   // which shedder this is, for messages (group key / route class)
+	peers    []*world // the other shedders of the same ShedderGroup / engine
 	cfg      config
 	get      func() load.Shedder
 	t0       time.Time
@@ -136,10 +143,25 @@ func (cfg config) opts() []load.ShedderOption {
 	return []load.ShedderOption{load.WithWindow(cfg.window), load.WithBuckets(cfg.buckets), load.WithCpuThreshold(cfg.thr)}
 }
 
-// newWorld creates the shedder under test.  via: 0 NewAdaptiveShedder, 1 ShedderGroup (looked up for every call).
-func newWorld(e *env, cfg config, via int, disabled bool) *world {
+func baseWorld(e *env, cfg config, disabled bool) *world {
 	w := &world{e: e, cfg: cfg, interval: cfg.interval(), size: cfg.buckets, disabled: disabled}
 	w.bps = float64(time.Second) / float64(w.interval)
+	return w
+}
+
+// created notes the creation instant of the shedder; before was read right before
+// the constructor was called.
+func (w *world) created(before time.Time) {
+	w.t0 = time.Now()
+	if !w.t0.Equal(before) {
+		// a stall hit the constructor: the alignment of the buckets is not known exactly
+		w.noCap = true
+	}
+}
+
+// newWorld creates the shedder under test.  via: 0 NewAdaptiveShedder, 1 ShedderGroup (looked up for every call).
+func newWorld(e *env, cfg config, via int, disabled bool) *world {
+	w := baseWorld(e, cfg, disabled)
 	before := time.Now()
 	if via == 0 {
 		sh := load.NewAdaptiveShedder(cfg.opts()...)
@@ -149,12 +171,45 @@ func newWorld(e *env, cfg config, via int, disabled bool) *world {
 		g.GetShedder("svc")
 		w.get = func() load.Shedder { return g.GetShedder("svc") }
 	}
-	w.t0 = time.Now()
-	if !w.t0.Equal(before) {
-		// a stall hit the constructor: the alignment of the buckets is not known exactly
-		w.noCap = true
-	}
+	w.created(before)
 	return w
+}
+
+// newGroupWorlds creates n shedders behind ONE ShedderGroup, one per key; every call
+// looks its shedder up again.  "One shedder per key, keys independent": each key is
+// judged by the general oracle with its own in-flight population and its own
+// capacity estimate, so load on one key can never justify a shed on another.
+func newGroupWorlds(e *env, cfg config, n int, disabled bool, between func()) []*world {
+	g := load.NewShedderGroup(cfg.opts()...)
+	if between != nil {
+		between() // between the creation of the group and the first lookup of any key
+	}
+	ws := make([]*world, n)
+	for i := range ws {
+		key := fmt.Sprintf("key%d", i)
+		w := baseWorld(e, cfg, disabled)
+		w.pfx, w.desc = "group/", key
+		before := time.Now()
+		g.GetShedder(key)
+		w.created(before)
+		w.get = func() load.Shedder { return g.GetShedder(key) }
+		ws[i] = w
+	}
+	for _, w := range ws {
+		for _, p := range ws {
+			if p != w {
+				w.peers = append(w.peers, p)
+			}
+		}
+	}
+	return ws
+}
+
+func (w *world) fail(class, format string, a ...any) {
+	if w.desc != "" {
+		format = "[" + w.desc + "] " + format
+	}
+	w.e.r.Fail(w.pfx+class, format, a...)
 }
 
 func (w *world) now() time.Duration { return time.Since(w.t0) }
@@ -179,29 +234,62 @@ func (w *world) allow() *call {
 	e.cur[tid] = c
 	c.kInv, c.tInv = e.tick(), w.now()
 	p, err := sh.Allow()
-	c.kRet, c.tRet = e.tick(), w.now()
-	c.done = true
-	delete(e.cur, tid)
+	shed := true
 	switch {
 	case err == nil:
 		c.p = p
-		w.nAdmit++
-		if p == nil {
-			r.Fail("promise-nil", "Allow %d returned neither a promise nor an error", c.id)
-		}
+		shed = false
 	case err == load.ErrServiceOverloaded:
-		c.shed = true
-		w.nShed++
 	default:
-		c.shed = true
-		r.Fail("unexpected-error", "Allow %d returned %v", c.id, err)
+		w.fail("unexpected-error", "Allow %d returned %v", c.id, err)
+	}
+	w.decided(c, shed, func() {
+		if err == nil && p == nil {
+			w.fail("promise-nil", "Allow %d returned neither a promise nor an error", c.id)
+		}
+	})
+	return c
+}
+
+// begin opens a request whose Allow happens somewhere inside code the harness does
+// not see (REST engine): the decision lies between begin and decided.
+func (w *world) begin() *call {
+	e := w.e
+	c := &call{id: len(w.calls), w: w}
+	w.calls = append(w.calls, c)
+	e.cur[e.r.CurrentID()] = c
+	c.kInv, c.tInv = e.tick(), w.now()
+	return c
+}
+
+// decided records the outcome of the Allow of call c (on the task that made it) and judges it.
+func (w *world) decided(c *call, shed bool, extra func()) {
+	e := w.e
+	r := e.r
+	c.kRet, c.tRet = e.tick(), w.now()
+	c.done = true
+	delete(e.cur, r.CurrentID())
+	c.shed = shed
+	if shed {
+		w.nShed++
+	} else {
+		w.nAdmit++
+	}
+	if extra != nil {
+		extra()
 	}
 	r.Ev("allow", int64(c.id), b2i(c.shed), b2i(c.over))
 	if r.Tracing() {
-		r.Logf("allow #%d t=[%v,%v] k=[%d,%d] over=%v shed=%v cpu=%d", c.id, c.tInv, c.tRet, c.kInv, c.kRet, c.over, c.shed, e.cpu)
+		r.Logf("%sallow #%d t=[%v,%v] k=[%d,%d] over=%v shed=%v cpu=%d", w.tag(), c.id, c.tInv, c.tRet, c.kInv, c.kRet, c.over, c.shed, e.cpu)
 	}
 	w.checkAllow(c)
-	return c
+}
+
+func (w *world) tag() string {
+	if w.desc == "" {
+		return ""
+	}
+	return "[" + w.desc + "] "
 }
 
 func b2i(b bool) int64 {
@@ -213,14 +301,24 @@ func b2i(b bool) int64 {
 
 // resolve resolves the promise of an admitted call exactly once.
 func (w *world) resolve(c *call, pass bool) {
-	e := w.e
-	c.pass = pass
-	c.kRInv, c.tRInv = e.tick(), w.now()
+	w.resolveBegin(c, pass)
 	if pass {
 		c.p.Pass()
 	} else {
 		c.p.Fail()
 	}
+	w.resolveEnd(c)
+}
+
+// resolveBegin: from here on the promise of c may be being resolved (with the given outcome).
+func (w *world) resolveBegin(c *call, pass bool) {
+	c.pass = pass
+	c.kRInv, c.tRInv = w.e.tick(), w.now()
+}
+
+// resolveEnd: the resolution of c has certainly ended.
+func (w *world) resolveEnd(c *call) {
+	e := w.e
 	c.kRRet, c.tRRet = e.tick(), w.now()
 	// lower bound of the in-flight count the shedder saw right after this resolution:
 	// admitted before this resolution began and not being resolved before it ended
@@ -232,9 +330,9 @@ func (w *world) resolve(c *call, pass bool) {
 	}
 	c.sLo = n
 	w.resLo = append(w.resLo, n)
-	e.r.Ev("resolve", int64(c.id), b2i(pass))
+	e.r.Ev("resolve", int64(c.id), b2i(c.pass))
 	if e.r.Tracing() {
-		e.r.Logf("resolve #%d pass=%v t=[%v,%v] lat>=%v inflight-after>=%d", c.id, pass, c.tRInv, c.tRRet, c.tRInv-c.tRet, n)
+		e.r.Logf("%sresolve #%d pass=%v t=[%v,%v] lat>=%v inflight-after>=%d", w.tag(), c.id, c.pass, c.tRInv, c.tRRet, c.tRInv-c.tRet, n)
 	}
 }
 
@@ -373,12 +471,12 @@ func (w *world) checkAllow(c *call) {
 	r.Probe("oracle")
 	if w.disabled {
 		if c.shed {
-			r.Fail("disabled-shed", "a disabled shedder shed Allow %d", c.id)
+			w.fail("disabled-shed", "a disabled shedder shed Allow %d", c.id)
 		}
 		return
 	}
 	if c.checks > 0 && c.thrSeen != w.cfg.thr {
-		r.Fail("threshold", "CPU predicate consulted with threshold %d, configured %d", c.thrSeen, w.cfg.thr)
+		w.fail("threshold", "CPU predicate consulted with threshold %d, configured %d", c.thrSeen, w.cfg.thr)
 		return
 	}
 	fLo, fHi := w.flyBounds(c)
@@ -391,6 +489,9 @@ func (w *world) checkAllow(c *call) {
 	if !c.shed {
 		if c.over {
 			r.Probe("admitted-while-overloaded")
+			if fHi == 0 && w.peerLoad() > 0 {
+				r.Probe("idle-shedder-admits-while-peer-loaded")
+			}
 		}
 		return
 	}
@@ -416,26 +517,44 @@ func (w *world) checkAllow(c *call) {
 			}
 		}
 		if !recent {
-			r.Fail("shed-cpu-cold", "Allow %d at %v was shed although the CPU was below the threshold and the last overloaded Allow ended at %v (>= 1s earlier; -1ns = never)", c.id, c.tInv, last)
+			w.fail("shed-cpu-cold", "Allow %d at %v was shed although the CPU was below the threshold and the last overloaded Allow ended at %v (>= 1s earlier; -1ns = never)", c.id, c.tInv, last)
 			return
 		}
 		if !drop {
-			r.Fail("shed-cpu-no-drop", "Allow %d at %v was shed with the CPU below the threshold although nothing had been shed before", c.id, c.tInv)
+			w.fail("shed-cpu-no-drop", "Allow %d at %v was shed with the CPU below the threshold although nothing had been shed before", c.id, c.tInv)
 			return
 		}
 		r.Probe("shed-in-cool-off")
 	}
 	if fHi == 0 {
-		r.Fail("shed-nothing-in-flight", "Allow %d at %v was shed with no admitted request unresolved", c.id, c.tInv)
+		if n := w.peerLoad(); n > 0 {
+			w.fail("shed-nothing-in-flight", "Allow %d at %v was shed with no admitted request of its own unresolved (%d are in flight on the other shedders of the same group / engine)", c.id, c.tInv, n)
+			return
+		}
+		w.fail("shed-nothing-in-flight", "Allow %d at %v was shed with no admitted request unresolved", c.id, c.tInv)
 		return
 	}
 	if lo, ok, _, _ := w.capBounds(c); ok {
 		r.Probe("shed-with-capacity-known")
 		if float64(fHi) <= 0.1*lo*(1-1e-9) {
-			r.Fail("shed-under-capacity", "Allow %d at %v was shed with at most %d in flight, capacity estimate is at least %.3f (10%% = %.3f)", c.id, c.tInv, fHi, lo, 0.1*lo)
+			w.fail("shed-under-capacity", "Allow %d at %v was shed with at most %d in flight, capacity estimate is at least %.3f (10%% = %.3f)", c.id, c.tInv, fHi, lo, 0.1*lo)
 			return
 		}
 	}
+}
+
+// peerLoad is the number of requests certainly in flight on the other shedders of
+// the same ShedderGroup / REST engine (reporting and coverage only).
+func (w *world) peerLoad() int {
+	n := 0
+	for _, p := range w.peers {
+		for _, d := range p.calls {
+			if d.done && !d.shed && d.kRInv == 0 {
+				n++
+			}
+		}
+	}
+	return n
 }
 
 // mustShed evaluates the antecedent of the "does shed" clause for an Allow during
@@ -445,7 +564,6 @@ func (w *world) checkAllow(c *call) {
 // the last liveN (+ number of concurrent tasks) resolutions.  A violation is
 // recorded when the Allow was admitted nevertheless.
 func (w *world) mustShed(c *call, fLo int) bool {
-	r := w.e.r
 	if c.kRet != c.kInv+1 {
 		return false // another operation overlapped this Allow: the decision inputs are not exactly known
 	}
@@ -467,7 +585,7 @@ func (w *world) mustShed(c *call, fLo int) bool {
 		return false
 	}
 	if !c.shed {
-		r.Fail("not-shed", "Allow %d at %v was admitted although the CPU was overloaded, %d requests were in flight, the in-flight count was >= %d after each of the last %d resolutions and the capacity estimate is at most %.3f", c.id, c.tInv, fLo, minS, need, hi)
+		w.fail("not-shed", "Allow %d at %v was admitted although the CPU was overloaded, %d requests were in flight, the in-flight count was >= %d after each of the last %d resolutions and the capacity estimate is at most %.3f", c.id, c.tInv, fLo, minS, need, hi)
 	}
 	return true
 }
@@ -518,15 +636,32 @@ func body(r *simrt.Run, tier string) {
 	e := &env{r: r, cur: map[int]*call{}}
 	e.install()
 	defer e.uninstall()
-	switch r.Tape.Intn(8) {
+	// existing scenario families keep 2/3 of the runs; ShedderGroup with several keys 1/6,
+	// REST engine wiring 1/6 (+ a share of the disabled runs each)
+	switch r.Tape.Intn(12) {
 	case 0, 1, 2:
-		steady(e, tier)
+		steady(e, tier, false)
 	case 3, 4, 5:
-		mixed(e, tier, false)
+		mixed(e, tier, false, false)
 	case 6:
-		mixed(e, tier, true)
-	default:
+		// load.Disable(): whatever is created afterwards - directly, through a
+		// ShedderGroup, by the REST engine - never sheds
+		switch r.Tape.Intn(3) {
+		case 0:
+			mixed(e, tier, true, false)
+		case 1:
+			mixed(e, tier, true, true)
+		default:
+			engineMode(e, tier, true)
+		}
+	case 7:
 		wrappers(e, tier)
+	case 8:
+		steady(e, tier, true)
+	case 9:
+		mixed(e, tier, false, true)
+	default:
+		engineMode(e, tier, false)
 	}
 	if e.stray > 0 {
 		r.Probe("stray-checker-call")
@@ -538,12 +673,20 @@ func body(r *simrt.Run, tier string) {
 type op struct {
 	kind int // 0 allow, 1 resolve oldest (pass), 2 resolve oldest (fail), 3 sleep
 	d    time.Duration
+	key  int // which shedder of the group (multi-key runs)
 }
 
-func mixed(e *env, tier string, disabled bool) {
+// mixed: multi = several keys of one ShedderGroup, every client has a home key it
+// mostly works on, so the keys carry different in-flight populations.
+func mixed(e *env, tier string, disabled, multi bool) {
 	r, t := e.r, e.r.Tape
 	cfg := drawConfig(t)
-	via := t.Intn(2)
+	via, nKeys := 0, 1
+	if multi {
+		via, nKeys = 2, t.Range(2, 3)
+	} else {
+		via = t.Intn(2)
+	}
 	maxC, maxOps := 5, 14
 	if tier == "thorough" {
 		maxC, maxOps = 8, 40
@@ -553,6 +696,10 @@ func mixed(e *env, tier string, disabled bool) {
 	plans := make([][]op, nClients)
 	for i := range plans {
 		n := t.Range(2, maxOps)
+		home := 0
+		if multi {
+			home = t.Intn(nKeys)
+		}
 		for j := 0; j < n; j++ {
 			var o op
 			switch v := t.Intn(10); {
@@ -564,6 +711,12 @@ func mixed(e *env, tier string, disabled bool) {
 				o.kind = 2
 			default:
 				o.kind, o.d = 3, drawThink(t, cfg)
+			}
+			if multi && o.kind != 3 {
+				o.key = home
+				if t.Chance(1, 4) {
+					o.key = t.Intn(nKeys)
+				}
 			}
 			plans[i] = append(plans[i], o)
 		}
@@ -580,17 +733,30 @@ func mixed(e *env, tier string, disabled bool) {
 	for i, n := 0, t.Intn(6); i < n; i++ {
 		flips = append(flips, flip{drawThink(t, cfg), drawCPU(t, cfg.thr)})
 	}
+	var between func()
 	if disabled {
-		load.Disable()
 		defer load.VerifC02SetEnabled(true)
+		if multi && t.Bool() {
+			// the group exists already when shedding is disabled; its shedders are obtained afterwards
+			between = load.Disable
+			r.Probe("disabled-after-group-creation")
+		} else {
+			load.Disable()
+		}
 	}
-	w := newWorld(e, cfg, via, disabled)
+	var ws []*world
+	if multi {
+		ws = newGroupWorlds(e, cfg, nKeys, disabled, between)
+		r.Probe("group-multi-key")
+	} else {
+		ws = []*world{newWorld(e, cfg, via, disabled)}
+	}
 	e.setCPU(cpu0)
 	if r.Tracing() {
-		r.Logf("mixed cfg=%+v via=%d disabled=%v clients=%d cpu0=%d flips=%+v plans=%+v", cfg, via, disabled, nClients, cpu0, flips, plans)
+		r.Logf("mixed cfg=%+v via=%d keys=%d disabled=%v clients=%d cpu0=%d flips=%+v plans=%+v", cfg, via, nKeys, disabled, nClients, cpu0, flips, plans)
 	}
 	r.Sample(map[string]any{"scenario": "mixed", "disabled": disabled, "window": cfg.window.String(), "buckets": cfg.buckets, "cpu_threshold": cfg.thr,
-		"via_group": via == 1, "clients": nClients, "cpu0": cpu0, "cpu_flips": fmt.Sprintf("%+v", flips), "first_client_ops": fmt.Sprintf("%+v", plans[0])})
+		"via_group": via != 0, "group_keys": nKeys, "clients": nClients, "cpu0": cpu0, "cpu_flips": fmt.Sprintf("%+v", flips), "first_client_ops": fmt.Sprintf("%+v", plans[0])})
 	var tasks []*simrt.Task
 	tasks = append(tasks, r.Go("cpu-trace", func() {
 		for _, f := range flips {
@@ -602,17 +768,18 @@ func mixed(e *env, tier string, disabled bool) {
 	for i := 0; i < nClients; i++ {
 		i := i
 		tasks = append(tasks, r.Go(fmt.Sprintf("client%d", i), func() {
-			var held []*call
+			held := make([][]*call, nKeys)
 			for _, o := range plans[i] {
+				w := ws[o.key]
 				switch o.kind {
 				case 0:
 					if c := w.allow(); !c.shed && c.p != nil {
-						held = append(held, c)
+						held[o.key] = append(held[o.key], c)
 					}
 				case 1, 2:
-					if len(held) > 0 {
-						w.resolve(held[0], o.kind == 1)
-						held = held[1:]
+					if h := held[o.key]; len(h) > 0 {
+						w.resolve(h[0], o.kind == 1)
+						held[o.key] = h[1:]
 					}
 				default:
 					if o.d > 0 {
@@ -625,8 +792,10 @@ func mixed(e *env, tier string, disabled bool) {
 					break
 				}
 			}
-			for _, c := range held {
-				w.resolve(c, c.id%2 == 0)
+			for k, h := range held {
+				for _, c := range h {
+					ws[k].resolve(c, c.id%2 == 0)
+				}
 			}
 		}))
 	}
@@ -634,7 +803,9 @@ func mixed(e *env, tier string, disabled bool) {
 		r.Fail("stuck", "clients did not finish: %v", r.AliveTasks())
 		return
 	}
-	w.conservation()
+	for _, w := range ws {
+		w.conservation()
+	}
 }
 
 // conservation: every promise has been resolved once, so nothing is in flight:
@@ -658,13 +829,41 @@ func (w *world) conservation() {
 
 // --- steady: one driver, scripted phases that reach the boundaries -----------
 
-func steady(e *env, tier string) {
+// steady: multi = the driver's shedder is key0 of a ShedderGroup with 2-3 keys; the
+// other keys ("side" shedders) carry their own drawn in-flight level and are asked
+// while key0 is loaded / shedding / cooling off.  Every key is judged on its own.
+func steady(e *env, tier string, multi bool) {
 	r, t := e.r, e.r.Tape
 	cfg := drawConfig(t)
-	via := t.Intn(2)
 	e.nTasks = 1
-	w := newWorld(e, cfg, via, false)
+	var w *world
+	var side []*world
+	via := 0
+	if multi {
+		via = 2
+		ws := newGroupWorlds(e, cfg, t.Range(2, 3), false, nil)
+		w, side = ws[0], ws[1:]
+		r.Probe("group-multi-key")
+	} else {
+		via = t.Intn(2)
+		w = newWorld(e, cfg, via, false)
+	}
 	e.setCPU(0)
+	heldS := make([][]*call, len(side))
+	sideAdmit := func(i int) bool {
+		c := side[i].allow()
+		if !c.shed && c.p != nil {
+			heldS[i] = append(heldS[i], c)
+			return true
+		}
+		return false
+	}
+	sideResolve := func(i int, pass bool) {
+		if h := heldS[i]; len(h) > 0 {
+			side[i].resolve(h[0], pass)
+			heldS[i] = h[1:]
+		}
+	}
 	var held []*call
 	var script []string
 	note := func(f string, a ...any) {
@@ -726,6 +925,23 @@ func steady(e *env, tier string) {
 		}
 		// leave the bucket(s) of phase A
 		r.Sleep(cfg.interval() * time.Duration(1+t.Intn(2)))
+		// side keys: own in-flight level, optionally with a few passes so that they
+		// have a capacity estimate and a moving average of their own
+		for i := range side {
+			hS := []int{0, 30, 3, 12, 0, 1}[t.Intn(6)]
+			for j := 0; j < hS; j++ {
+				sideAdmit(i)
+			}
+			nRes := t.Intn(4)
+			if nRes > 0 && len(heldS[i]) > 0 {
+				r.Sleep([]time.Duration{0, time.Millisecond, 5 * time.Millisecond}[t.Intn(3)])
+				for j := 0; j < nRes; j++ {
+					sideResolve(i, true)
+				}
+				r.Sleep(cfg.interval())
+			}
+			note("side %s: level %d, %d passes", side[i].desc, hS, nRes)
+		}
 		// B: ramp the in-flight level up
 		h := []int{0, 2, 5, 12, 30, 1, 3}[t.Intn(7)]
 		for i := 0; i < h; i++ {
@@ -754,6 +970,14 @@ func steady(e *env, tier string) {
 			}
 		}
 		note("D: cpu=%d, %d Allows, %d shed", cpu, nD, shedD)
+		for i := range side {
+			for j, n := 0, t.Intn(3); j < n && !r.Failed(); j++ {
+				if len(heldS[i]) == 0 && len(held) > 0 {
+					r.Probe("group-idle-key-asked-while-other-key-loaded")
+				}
+				sideAdmit(i)
+			}
+		}
 		// E: cool-off boundary
 		low := []int64{0, cfg.thr - 1}[t.Intn(2)]
 		e.setCPU(low)
@@ -771,6 +995,11 @@ func steady(e *env, tier string) {
 			}
 		}
 		note("E: cpu=%d, %v after the last overloaded Allow: %d Allows, %d shed", low, delta, nE, shedE)
+		for i := range side {
+			if t.Bool() && !r.Failed() {
+				sideAdmit(i)
+			}
+		}
 		if shedD > 0 {
 			r.Probe("steady-shed-under-overload")
 		}
@@ -787,6 +1016,14 @@ func steady(e *env, tier string) {
 			resolveOldest(t.Bool())
 			if dgap > 0 {
 				r.Sleep(dgap)
+			}
+		}
+		for i := range side {
+			if t.Chance(1, 4) {
+				continue // this key keeps its population into the next round
+			}
+			for len(heldS[i]) > 0 && !r.Failed() {
+				sideResolve(i, t.Bool())
 			}
 		}
 		if keep == 0 && len(held) == 0 {
@@ -808,12 +1045,29 @@ func steady(e *env, tier string) {
 	for len(held) > 0 {
 		resolveOldest(true)
 	}
+	for i := range side {
+		for len(heldS[i]) > 0 {
+			sideResolve(i, true)
+		}
+	}
 	r.Sample(map[string]any{"scenario": "steady", "window": cfg.window.String(), "buckets": cfg.buckets, "cpu_threshold": cfg.thr,
-		"via_group": via == 1, "allows": len(w.calls), "shed": w.nShed, "script": script})
+		"via_group": via != 0, "group_keys": 1 + len(side), "allows": len(w.calls), "shed": w.nShed, "script": script})
 	w.conservation()
+	for _, sw := range side {
+		sw.conservation()
+	}
 	r.Probe("nontrivial")
 }
 
+// simConfig is simharness.DefaultConfig with a wider step budget: in the engine scenario
+// up to 40 request tasks contend for the shedder's spin lock, and every failed
+// attempt of every waiter is a scheduling point.
+func simConfig(t *simrt.Tape, tier string) simrt.Config {
+	c := simharness.DefaultConfig(t, tier)
+	c.MaxSteps = 150000
+	return c
+}
+
 func TestSim(t *testing.T) {
-	simharness.Main(t, &simharness.Spec{ID: "C02", Body: body, CrashIsViolation: true})
+	simharness.Main(t, &simharness.Spec{ID: "C02", Body: body, Config: simConfig, CrashIsViolation: true})
 }
